@@ -68,23 +68,27 @@ def demonstrate_binding(ctx, module, events, constants, invariants, timeout, hea
     if module in _BINDING_SHOWN:
         return
     prefix = events[:60]
+    if not any("res" in e and _corrupt(e["res"]) is not None for e in prefix):
+        return
+    _BINDING_SHOWN.add(module)
+    clean = {b["i"] for b in validate_trace(ctx, module, prefix, constants=constants, invariants=invariants, timeout=timeout,
+                                            what="binding demonstration (uncorrupted prefix)", ntraces=0, heap=heap, _demo=True)["verdict"]}
     for idx in range(len(prefix) - 1, -1, -1):
         e = prefix[idx]
-        if "res" in e and _corrupt(e["res"]) is not None:
-            bad = dict(e)
-            bad["res"] = _corrupt(e["res"])
-            mutated = prefix[:idx] + [bad] + prefix[idx + 1:]
-            _BINDING_SHOWN.add(module)
-            v = validate_trace(ctx, module, mutated, constants=constants, invariants=invariants, timeout=timeout,
-                               what="binding demonstration (one corrupted field)", ntraces=0, heap=heap, _demo=True)
-            flagged = {b["i"] for b in v["verdict"]}
-            clean = {b["i"] for b in validate_trace(ctx, module, prefix, constants=constants, invariants=invariants, timeout=timeout,
-                                                    what="binding demonstration (uncorrupted prefix)", ntraces=0, heap=heap, _demo=True)["verdict"]}
-            if idx + 1 not in flagged - clean:
-                raise tlc.MachineryFailure("%s accepted a trace whose event %d had its result corrupted (%s -> %s): the trace "
-                                           "spec does not constrain that field" % (module, idx + 1, e["res"], bad["res"]))
-            ctx.note("binding_demonstrated_" + module, "event %d op=%s with a corrupted result was rejected" % (idx + 1, e.get("op")))
-            return
+        # an event the spec already flags (e.g. a listed known deviation) is no use: corrupting it may make it right
+        if idx + 1 in clean or "res" not in e or _corrupt(e["res"]) is None:
+            continue
+        bad = dict(e)
+        bad["res"] = _corrupt(e["res"])
+        mutated = prefix[:idx] + [bad] + prefix[idx + 1:]
+        v = validate_trace(ctx, module, mutated, constants=constants, invariants=invariants, timeout=timeout,
+                           what="binding demonstration (one corrupted field)", ntraces=0, heap=heap, _demo=True)
+        flagged = {b["i"] for b in v["verdict"]}
+        if idx + 1 not in flagged:
+            raise tlc.MachineryFailure("%s accepted a trace whose event %d had its result corrupted (%s -> %s): the trace "
+                                       "spec does not constrain that field" % (module, idx + 1, e["res"], bad["res"]))
+        ctx.note("binding_demonstrated_" + module, "event %d op=%s with a corrupted result was rejected" % (idx + 1, e.get("op")))
+        return
 
 
 def validate_trace(ctx, module, events, constants=None, invariants=(), timeout=900, what="trace validation",
